@@ -223,7 +223,7 @@ def check(run):
         "mod_skipped_zero_divisor_or_min_by_minus_one": tot("skip_mod"),
         "float_comparisons_inside_4ulp_band_not_judged": tot("band"),
         "float_pairs_with_exact_scaled_operands_judged_exactly": tot("tight"),
-        "float_pairs_with_nan_or_infinite_operand_only_spaceship_consistency_judged": tot("nonfinite"),
+        "float_pairs_with_nan_or_infinite_operand_judged_for_mutual_consistency_mirror_symmetry_and_spaceship": tot("nonfinite"),
         "float_pairs_with_nan_or_infinite_operand_where_six_operators_differ_from_ieee_not_judged": tot("nonfinite_not_ieee"),
         "ubsan_reports": tot("ubsan"),
         "instances_candidates": len(insts),
@@ -275,7 +275,7 @@ def check(run):
         "floating reps: when both factors are integers representable in the common rep C and both scaled operands are values of C, "
         "comparisons are judged exactly and sums/differences to 1 ulp of C at the result; otherwise |result - exact| <= 4 ulp of C at "
         "max(|a|,|b|) (a, b = exactly scaled operands) and comparisons only when |a-b| exceeds that. NaN / infinite operands have "
-        "no exact value: only the agreement of <=> with the six operators is judged there",
+        "no exact value: the mutual consistency of the six operators (<= is < or ==, >= is > or ==, != is not ==), their mirror symmetry under swapping the operands, and the agreement of <=> with them are judged there (raw IEEE operators satisfy all three); whether the individual answers are the IEEE ones is only counted",
         "an instance admitted by the policy model must compile (violation otherwise); an instance the model excludes is swept "
         "when it compiles anyway and is logged as domain_mismatch",
         "undefined behaviour reported by UBSan on a pair inside the precondition is reported as a violation (the result of an "
